@@ -4,6 +4,7 @@
 package main
 
 import (
+	"fmt"
 	"sort"
 	"strconv"
 	"strings"
@@ -385,6 +386,33 @@ func bigCase(id, n int, r *hx.Rand) {
 	hx.Printf("sobs %d probe=%s first=%d second=%d last=%d\n", id, string(bits), index[sorted[0]], index[sorted[1]], index[sorted[n-1]])
 }
 
+// wideCase: a `.config` group with MORE THAN 64 sub-fields (70-130 file keys) and keys that differ
+// only in field 64, 65 or 100: Key.Less and SortKeys must order them by that field.
+func wideCase(r *hx.Rand, order string) Scenario {
+	nk := 70 + r.Intn(61)
+	sc := Scenario{S: true, Tags: []string{"wide", "config"}}
+	sc.Ops = append(sc.Ops, Op{Kind: 'P', Specs: []SpecT{{Key: ".config", Order: order}}})
+	mk := func(idx int, v string) ResT {
+		res := ResT{Name: "B", Units: []string{"ns/op"}}
+		for i := 0; i < nk; i++ {
+			val := "v"
+			if i == idx {
+				val = v
+			}
+			res.Cfg = append(res.Cfg, CfgT{fmt.Sprintf("k%03d", i), val, true})
+		}
+		return res
+	}
+	results := []ResT{mk(-1, ""), mk(64, "z"), mk(64, "y"), mk(65, "x"), mk(64, "10"), mk(63, "9")}
+	if nk > 100 {
+		results = append(results[:5], mk(100, "w"))
+	}
+	for _, res := range results {
+		sc.Ops = append(sc.Ops, Op{Kind: 'A', Res: res})
+	}
+	return sc
+}
+
 func main() {
 	defer hx.Flush()
 	r := hx.NewRand(9)
@@ -401,6 +429,12 @@ func main() {
 		bigCase(id, hx.N(66000, 131073), shuf)
 	}
 	id++
+	for _, o := range []string{"first", "alpha", "num"} {
+		if id%nshards == shard {
+			runScenario(id, wideCase(r, o), shuf)
+		}
+		id++
+	}
 	n := hx.N(1500, 40000)
 	for i := 0; i < n; i++ {
 		sc := genScenario(r)
